@@ -14,12 +14,129 @@ import (
 )
 
 type modSet struct {
-	heaps map[string]string // name -> sort
-	all   bool
-	tok   bool
+	heaps    map[string]string // name -> sort
+	nonLocal map[string]bool   // heaps with a write to an object that may have existed before the loop
+	all      bool
+	localAll bool // some call writes unknown heaps, but only at objects allocated inside the loop
+	tok      bool
+	body     map[*ssa.BasicBlock]bool // blocks of the loop
+	topFn    *ssa.Function
 }
 
-func (m *modSet) add(name, sort string) { m.heaps[name] = sort; m.tok = true }
+func (m *modSet) add(name, sort string) {
+	m.heaps[name] = sort
+	m.tok = true
+	if m.nonLocal != nil {
+		m.nonLocal[name] = true
+	}
+}
+
+// addAt records a write through base: if base is derived only from allocations made inside the
+// loop (or inside a function called from the loop), objects that existed before the loop are untouched.
+func (m *modSet) addAt(name, sort string, base ssa.Value) {
+	if m.nonLocal != nil && base != nil && m.localRooted(base, map[ssa.Value]bool{}) {
+		m.heaps[name] = sort
+		m.tok = true
+		return
+	}
+	m.add(name, sort)
+}
+
+func (m *modSet) localInstr(i ssa.Instruction) bool {
+	if i.Block() == nil {
+		return false
+	}
+	if i.Parent() != m.topFn {
+		// instruction of a callee scanned because it is called from the loop
+		return m.body != nil
+	}
+	return m.body[i.Block()]
+}
+
+func (m *modSet) localRooted(v ssa.Value, seen map[ssa.Value]bool) bool {
+	if seen[v] {
+		return true
+	}
+	seen[v] = true
+	switch x := v.(type) {
+	case *ssa.Const:
+		return x.Value == nil
+	case *ssa.Alloc:
+		return m.localInstr(x)
+	case *ssa.MakeMap:
+		return m.localInstr(x)
+	case *ssa.MakeSlice:
+		return m.localInstr(x)
+	case *ssa.FieldAddr:
+		return m.localRooted(x.X, seen)
+	case *ssa.IndexAddr:
+		return m.localRooted(x.X, seen)
+	case *ssa.Slice:
+		return m.localRooted(x.X, seen)
+	case *ssa.ChangeType:
+		return m.localRooted(x.X, seen)
+	case *ssa.Call:
+		if b, ok := x.Call.Value.(*ssa.Builtin); ok && b.Name() == "append" {
+			return m.localInstr(x) && m.localRooted(x.Call.Args[0], seen)
+		}
+		return false
+	case *ssa.Phi:
+		if !m.localInstr(x) {
+			return false
+		}
+		for _, e := range x.Edges {
+			if !m.localRooted(e, seen) {
+				return false
+			}
+		}
+		return true
+	}
+	return false
+}
+
+// freshRooted: v is nil or derived only from allocations of the enclosing function (so it did not
+// exist when the function was entered). Used for the automatic loop invariant on slice/map variables
+// built up inside a loop.
+func freshRooted(v ssa.Value, seen map[ssa.Value]bool) bool {
+	if seen[v] {
+		return true
+	}
+	seen[v] = true
+	switch x := v.(type) {
+	case *ssa.Const:
+		return x.Value == nil
+	case *ssa.Alloc, *ssa.MakeMap, *ssa.MakeSlice:
+		return true
+	case *ssa.Slice:
+		return freshRooted(x.X, seen)
+	case *ssa.ChangeType:
+		return freshRooted(x.X, seen)
+	case *ssa.Call:
+		if b, ok := x.Call.Value.(*ssa.Builtin); ok && b.Name() == "append" {
+			return freshRooted(x.Call.Args[0], seen)
+		}
+		return false
+	case *ssa.Phi:
+		for _, e := range x.Edges {
+			if !freshRooted(e, seen) {
+				return false
+			}
+		}
+		return true
+	}
+	return false
+}
+
+// refOf gives the heap reference of a pointer-like value (the array of a slice).
+func refOf(t string, typ types.Type) string {
+	switch typ.Underlying().(type) {
+	case *types.Slice:
+		return "(s.arr " + t + ")"
+	case *types.Pointer, *types.Map:
+		return t
+	}
+	return ""
+}
 
 func (f *Frame) loopInvariants(li *loopInfo) []*Clause {
 	var out []*Clause
@@ -113,11 +230,42 @@ func (f *Frame) enterLoop(li *loopInfo, cur *State) {
 			Label: "auto.range", Text: "-1 <= rangeindex < len", Guard: guard, Goal: and("(bvsle #xffffffffffffffff "+x+")", or("(bvslt "+x+" "+ln+")", eq(x, "#xffffffffffffffff"))), Pos: f.posOfBlock(h)})
 	}
 
+	// slice / map / pointer variables built up by the loop from allocations of this function stay
+	// fresh (not among the objects that existed at entry) -- needed by frame obligations only
+	var autoFresh []*ssa.Phi
+	if e.frameOn {
+		for _, ins := range h.Instrs {
+			phi, ok := ins.(*ssa.Phi)
+			if !ok || entryVals[phi] == nil || refOf("x", phi.Type()) == "" {
+				continue
+			}
+			if freshRooted(phi, map[ssa.Value]bool{}) {
+				autoFresh = append(autoFresh, phi)
+			}
+		}
+		e.heapInit("alloc", "(Array Ref Bool)", 0)
+		for _, phi := range autoFresh {
+			r := refOf(entryVals[phi].T, phi.Type())
+			e.addObl(&Obligation{Name: fmt.Sprintf("%s#inv[loop %d].entry[auto.fresh %s]", f.prefix, li.ordinal, phi.Comment), Kind: "inv.entry", Func: f.prefix,
+				Label: "auto.fresh", Text: phi.Comment + " is nil or was allocated by this call", Guard: guard, Goal: or(eq(r, "nil"), not(sel("alloc!0", r))), Pos: f.posOfBlock(h)})
+		}
+	}
+	li.autoFresh = autoFresh
+
 	// 2. havoc what the loop modifies
 	ms := f.loopModSet(li)
+	preAlloc := e.allocArr(cur)
 	if ms.all {
 		e.havocAll(cur)
 	} else {
+		if ms.localAll {
+			ms.heaps["alloc"] = "(Array Ref Bool)"
+			for _, name := range e.heapOrd {
+				if _, ok := ms.heaps[name]; !ok {
+					ms.heaps[name] = e.heapSrt[name]
+				}
+			}
+		}
 		for _, name := range sortedKeys(ms.heaps) {
 			if name == "alloc" {
 				// allocation only grows
@@ -128,7 +276,21 @@ func (f *Frame) enterLoop(li *loopInfo, cur *State) {
 				cur.heaps[name] = na
 				continue
 			}
+			preH := ""
+			local := !ms.nonLocal[name] && strings.HasPrefix(ms.heaps[name], "(Array Ref ")
+			if local {
+				preH = e.heapGet(cur, name, ms.heaps[name])
+			}
 			cur.heaps[name] = c.freshConst(name+"@loop", ms.heaps[name])
+			if local {
+				// every write to this heap inside the loop goes to an object allocated inside the
+				// loop: what existed before the loop keeps its contents
+				if preH != "" {
+					pa := preAlloc
+					c.usesQuant = true
+					c.assert(fmt.Sprintf("(forall ((r Ref)) (! (=> (select %s r) (= (select %s r) (select %s r))) :pattern ((select %s r))))", pa, cur.heaps[name], preH, cur.heaps[name]))
+				}
+			}
 			if _, ok := e.heapSrt[name]; !ok {
 				e.heapSrt[name] = ms.heaps[name]
 				e.heapOrd = append(e.heapOrd, name)
@@ -165,6 +327,10 @@ func (f *Frame) enterLoop(li *loopInfo, cur *State) {
 		x := li.phiVal[li.rangeIdx].T
 		ln := f.val(li.rangeLen).T
 		c.assert(implies(guard, and("(bvsle #xffffffffffffffff "+x+")", or("(bvslt "+x+" "+ln+")", eq(x, "#xffffffffffffffff")))))
+	}
+	for _, phi := range autoFresh {
+		r := refOf(li.phiVal[phi].T, phi.Type())
+		c.assert(implies(guard, or(eq(r, "nil"), not(sel("alloc!0", r)))))
 	}
 	li.headSt = cur.clone()
 }
@@ -218,6 +384,11 @@ func (f *Frame) backEdge(li *loopInfo, from *ssa.BasicBlock, cur *State) {
 		e.addObl(&Obligation{Name: fmt.Sprintf("%s#inv[loop %d].preserve[auto.range]", f.prefix, li.ordinal), Kind: "inv.preserve", Func: f.prefix,
 			Label: "auto.range", Text: "-1 <= rangeindex < len", Guard: guard, Goal: and("(bvsle #xffffffffffffffff "+x+")", "(bvslt "+x+" "+ln+")"), Pos: f.posOfBlock(h)})
 	}
+	for _, phi := range li.autoFresh {
+		r := refOf(back[phi].T, phi.Type())
+		e.addObl(&Obligation{Name: fmt.Sprintf("%s#inv[loop %d].preserve[auto.fresh %s]", f.prefix, li.ordinal, phi.Comment), Kind: "inv.preserve", Func: f.prefix,
+			Label: "auto.fresh", Text: phi.Comment + " is nil or was allocated by this call", Guard: guard, Goal: or(eq(r, "nil"), not(sel("alloc!0", r))), Pos: f.posOfBlock(h)})
+	}
 	// decreases
 	fc := f.contract
 	if fc == nil {
@@ -247,7 +418,7 @@ func (f *Frame) backEdge(li *loopInfo, from *ssa.BasicBlock, cur *State) {
 
 // loopModSet over-approximates the heap arrays written inside a loop.
 func (f *Frame) loopModSet(li *loopInfo) *modSet {
-	ms := &modSet{heaps: map[string]string{}}
+	ms := &modSet{heaps: map[string]string{}, nonLocal: map[string]bool{}, body: li.body, topFn: f.fn}
 	seen := map[*ssa.Function]bool{}
 	for b := range li.body {
 		for _, ins := range b.Instrs {
@@ -285,7 +456,7 @@ func (f *Frame) scanMods(ins ssa.Instruction, ms *modSet, seen map[*ssa.Function
 				et = t.Elem().Underlying().(*types.Array).Elem()
 			}
 			n, s := c.elemHeap(et)
-			ms.add(n, s)
+			ms.addAt(n, s, ia.X)
 			return
 		}
 		pt, ok := root.Type().Underlying().(*types.Pointer)
@@ -295,15 +466,15 @@ func (f *Frame) scanMods(ins ssa.Instruction, ms *modSet, seen map[*ssa.Function
 		}
 		if arr, ok := pt.Elem().Underlying().(*types.Array); ok {
 			n, s := c.elemHeap(arr.Elem())
-			ms.add(n, s)
+			ms.addAt(n, s, root)
 			return
 		}
 		n, s := c.cellHeap(pt.Elem())
-		ms.add(n, s)
+		ms.addAt(n, s, root)
 	case *ssa.MapUpdate:
 		hn, hs, vn, vs := c.mapHeaps(x.Map.Type())
-		ms.add(hn, hs)
-		ms.add(vn, vs)
+		ms.addAt(hn, hs, x.Map)
+		ms.addAt(vn, vs, x.Map)
 	case *ssa.Alloc, *ssa.MakeMap, *ssa.MakeSlice:
 		// allocation writes the zero value into the (fresh) cell
 		switch y := x.(type) {
@@ -343,7 +514,7 @@ func (f *Frame) scanCallMods(cc *ssa.CallCommon, ms *modSet, seen map[*ssa.Funct
 		case "append":
 			et := cc.Args[0].Type().Underlying().(*types.Slice).Elem()
 			n, s := c.elemHeap(et)
-			ms.add(n, s)
+			ms.addAt(n, s, cc.Args[0])
 		case "copy":
 			et := cc.Args[0].Type().Underlying().(*types.Slice).Elem()
 			n, s := c.elemHeap(et)
@@ -384,7 +555,7 @@ func (f *Frame) scanCallMods(cc *ssa.CallCommon, ms *modSet, seen map[*ssa.Funct
 		if fc.Pure {
 			return
 		}
-		if fc.NoFrame || !fc.ModGiven {
+		if fc.NoFrame || !f.enc.modGiven(fc) {
 			ms.all = true
 			return
 		}
@@ -401,6 +572,21 @@ func (f *Frame) scanCallMods(cc *ssa.CallCommon, ms *modSet, seen map[*ssa.Funct
 		return
 	}
 	if fn != nil && jsonUnmarshalKeys[keyOfFunction(fn)] {
+		// decoding into an object created inside the loop writes that object and what the decoder
+		// allocates -- nothing that existed before the loop
+		if len(cc.Args) == 2 && ms.nonLocal != nil {
+			tgt := cc.Args[1]
+			if mi, ok := tgt.(*ssa.MakeInterface); ok {
+				tgt = mi.X
+			}
+			if ms.localRooted(tgt, map[ssa.Value]bool{}) {
+				if _, isConst := tgt.(*ssa.Const); !isConst {
+					ms.localAll = true
+					ms.tok = true
+					return
+				}
+			}
+		}
 		ms.all = true
 		return
 	}
@@ -441,6 +627,14 @@ func (f *Frame) modifiesHeaps(m *Expr, fc *FuncContract, fn *ssa.Function, cc *s
 	c := f.enc.ctx
 	if m.Op != "call" || m.Args[0].Op != "id" || len(m.Args) != 2 {
 		return nil, fmt.Errorf("unsupported modifies form %s", m)
+	}
+	if m.Args[0].Name == "global" {
+		g := f.enc.globalNamed(fc.PkgPath, m.Args[1])
+		if g == nil {
+			return nil, fmt.Errorf("modifies global(%s): no such package-level variable", m.Args[1])
+		}
+		n, s := c.cellHeap(g.Type().Underlying().(*types.Pointer).Elem())
+		return map[string]string{n: s}, nil
 	}
 	t, err := f.enc.staticTypeOfParamExpr(m.Args[1], fc, fn, cc)
 	if err != nil {
@@ -665,7 +859,7 @@ func (f *Frame) noteMapWrite(st *State, m *Val, ins ssa.Instruction) {
 // in the function's modifies clause.
 func (f *Frame) frameObl(base, what string, ins ssa.Instruction) {
 	e := f.enc
-	if !e.frameOn || e.topFC == nil || !e.topFC.ModGiven || e.topFC.NoFrame {
+	if !e.frameOn || e.topFC == nil || !e.modGiven(e.topFC) || e.topFC.NoFrame {
 		return
 	}
 	goal := not(sel("alloc!0", base))
@@ -673,6 +867,12 @@ func (f *Frame) frameObl(base, what string, ins ssa.Instruction) {
 	var allowed []string
 	top := e.topFrame
 	for _, m := range e.topFC.Modifies {
+		if m.Op == "call" && len(m.Args) == 2 && m.Args[0].Op == "id" && m.Args[0].Name == "global" {
+			if g := e.globalNamed(e.topFC.PkgPath, m.Args[1]); g != nil {
+				allowed = append(allowed, eq(base, top.val(g).T))
+			}
+			continue
+		}
 		if m.Op == "call" && len(m.Args) == 2 {
 			env := top.funcEnv(top.entrySt, top.entrySt)
 			v, err := env.eval(m.Args[1])
